@@ -8,7 +8,7 @@ from tc import TC, TCM, NR, TY, Ctx
 
 EXPLANATION = (
     "Decides: (ASSIGNABILITY) the Assignment arm of the statement checker calls can_assign(target)? before anything else and "
-    "can_assign accepts only a Read of a variable whose kind is not immutable, a BlobAccess or an Index - every other "
+    "can_assign accepts only a Read of a variable whose kind is not immutable or a BlobAccess (an Index only if some indexable type is writable at run time) - every other "
     "expression kind and every Const variable is Err(Assignability); (BINDER-KIND) function parameters and case bindings are "
     "created with VarKind::Const, `self` with Mutable, the parser maps `::`/`: T :` to Const and `:=`/`: T =` to Mutable and "
     "globals keep the declared kind; (CTX) by abstract interpretation of every TypeCtx argument passed between the checker's "
@@ -85,9 +85,10 @@ def assignability(F, rep):
                 accepted.add(name)
         break
     allv = set(F.variants(E))
-    rep.ob("ASSIGNABILITY", "can_assign|accept-set", accepted == {"Read", "BlobAccess", "Index"},
-           "can_assign lets through exactly %s (expected Read, BlobAccess, Index)" % sorted(accepted), fca["sp"])
-    rep.ob("ASSIGNABILITY", "can_assign|reject-set", rejected == allv - {"Read", "BlobAccess", "Index"} and "_" not in accepted,
+    # (whether an Index target can be written at run time at all is C02's ASSIGNABILITY obligation)
+    rep.ob("ASSIGNABILITY", "can_assign|accept-set", {"Read", "BlobAccess"} <= accepted <= {"Read", "BlobAccess", "Index"},
+           "can_assign lets through exactly %s (variables and fields, possibly indexes - nothing else)" % sorted(accepted), fca["sp"])
+    rep.ob("ASSIGNABILITY", "can_assign|reject-set", rejected == allv - accepted and "_" not in accepted,
            "every other expression kind is Err(Assignability) (%d kinds, no wildcard)" % len(rejected), fca["sp"])
     rep.ob("ASSIGNABILITY", "can_assign|Read-const", cond.get("Read", False),
            "a Read target whose variable kind is immutable() is Err(Assignability)", fca["sp"])
@@ -99,6 +100,58 @@ def assignability(F, rep):
         rest = [peel(a["body"]).get("v") for a in m["arms"] for alt in pat_alternatives(a["pat"]) if pat_variant(alt) is None]
         ok = ok and all(v is False for v in rest)
     rep.ob("ASSIGNABILITY", "VarKind::immutable", ok, "VarKind::immutable() is true exactly for Const", imm["sp"])
+
+
+LUA_TYPE_OF = {"Tuple": "tuple", "List": "list", "Blob": "blob", "Set": "set", "Dict": "dict"}
+
+
+def index_targets_writable(F, rep, index_accepted, rule="ASSIGNABILITY"):
+    """An assignment `v[i] = x` is lowered to __ASSIGN_INDEX(v, i, x).  The types the checker lets `v[i]` have are the rows
+    of constant_index that are not errors; the types the runtime refuses to write are the `if m._type == "T" then
+    assert(nil, ..)` branches of __ASSIGN_INDEX.  If every type the checker admits is refused by the runtime, an accepted
+    index assignment always stops the program - can_assign must then not accept Index targets.  Returns whether some
+    admitted type is writable."""
+    import luaparse
+    fci = F.fn(TC + "constant_index")
+    admitted = set()
+    for m in nodes(fn_body(fci), "Match"):
+        if ty_is(m.get("scrut_ty", ""), TY):
+            for a in m["arms"]:
+                for alt in pat_alternatives(a["pat"]):
+                    v = pat_variant(alt)
+                    if v and not tc.is_err_value(a["body"]) and last(v) != "Unknown":
+                        admitted.add(last(v))
+            break
+    ast = luaparse.parse(F.read("sylt-compiler/src/preamble.lua"))
+    fn = None
+    for st in ast["stmts"]:
+        if st["k"] == "Assign" and st["targets"][0].get("name") == "__ASSIGN_INDEX" and st["es"][0]["k"] == "Function":
+            fn = st["es"][0]
+    if fn is None:
+        rep.anchor_missing("__ASSIGN_INDEX in preamble.lua")
+        return True
+    refused = set()
+    for st in fn["body"]["stmts"]:
+        if st["k"] != "If":
+            continue
+        for cond, body in st["clauses"]:
+            if cond["k"] == "Binop" and cond["op"] == "==" and cond["r"]["k"] == "String" and luaparse.show(cond["l"]).endswith("._type"):
+                for b in body["stmts"]:
+                    if b["k"] == "CallStat" and luaparse.show(b["call"]["f"]) == "assert" and b["call"]["args"] and \
+                            b["call"]["args"][0]["k"] == "Const" and b["call"]["args"][0]["v"] in ("nil", "false"):
+                        refused.add(cond["r"]["v"])
+                    if b["k"] == "CallStat" and luaparse.show(b["call"]["f"]) in ("error", "__CRASH"):
+                        refused.add(cond["r"]["v"])
+    admitted_lua = {LUA_TYPE_OF.get(t, t.lower()) for t in admitted}
+    writable = bool(admitted_lua - refused)
+    rep.ob(rule, "can_assign|Index|writable-at-run-time", writable or not index_accepted,
+           ("index targets are %s; the checker lets an indexed value be %s, __ASSIGN_INDEX refuses %s" % (
+               "accepted" if index_accepted else "rejected", sorted(admitted), sorted(refused)))
+           if (writable or not index_accepted) else
+           "can_assign accepts `v[i] = x`, constant_index only admits %s for v and __ASSIGN_INDEX stops the program for %s: every "
+           "accepted index assignment (`t := (1, 2)  t[0] = 5`) fails at run time" % (sorted(admitted), sorted(refused)),
+           fci["sp"])
+    return writable
 
 
 def _varkind_arg(call, idx):
@@ -233,9 +286,16 @@ def ctx_propagation(F, rep, field, expect_special=None, rule="CTX", monotone=Tru
                 continue
             if want is not None:
                 seen_special.add((fname, ctxname.split("/")[0] if ctxname else "", last(cal)))
-                ok = val[field] == want
+                # a table entry is one required value or (acceptable values, reason)
+                why = ""
+                if isinstance(want, tuple):
+                    want, why = want
+                    ok = val[field] in want
+                    want = " or ".join(sorted(want))
+                else:
+                    ok = val[field] == want
                 rep.ob(rule, "%s|%s" % (field, where), ok,
-                       "%s passed with %s = %s (required: %s)" % (pp(arg), field, val[field], want), line_of(c))
+                       "%s passed with %s = %s (required: %s)%s" % (pp(arg), field, val[field], want, why), line_of(c))
             else:
                 # monotone flags: inheriting or setting to true can only reject more; resetting or an
                 # unknown value loses the flag
@@ -262,8 +322,11 @@ def ctx_propagation(F, rep, field, expect_special=None, rule="CTX", monotone=Tru
     for fn in F.fns_in(TCM):
         if fn["_path"].startswith(TCM + "TypeCtx::"):
             continue
+        # (a TypeCtx method the fact loader inlined as a new helper is still one of TypeCtx's own methods)
+        own = [id(s) for b in nodes(fn_body(fn), "Block") if (b.get("inlined") or "").startswith(TCM + "TypeCtx::")
+               for s in nodes(b, "Struct")]
         for s in nodes(fn_body(fn), "Struct"):
-            if ty_is(s.get("ty", ""), TCM + "TypeCtx"):
+            if ty_is(s.get("ty", ""), TCM + "TypeCtx") and id(s) not in own:
                 lits.append(last(fn["_path"], 2))
     rep.ob(rule, "TypeCtx|no-adhoc-literals", not lits, "no TypeCtx literal outside TypeCtx's own methods (%s)" % lits, None)
     # method summaries
